@@ -234,7 +234,9 @@ pub fn configs(thorough: bool) -> Vec<Config> {
     let mut v = vec![];
     let mut add = |writers: Vec<usize>, readers: Vec<Reader>| {
         let name = format!("w{}:{}", writers.iter().map(|n| n.to_string()).collect::<Vec<_>>().join("+"), readers.iter().map(|r| r.tag()).collect::<Vec<_>>().join("|"));
-        v.push(Config::new(name, Bound::Tier, move || body(&writers, &readers)));
+        // one writer thread + one reader thread: small enough to explore without preemption bound
+        let bound = if writers.len() + readers.len() <= 2 && writers.iter().sum::<usize>() <= 2 { Bound::Unbounded } else { Bound::Tier };
+        v.push(Config::new(name, bound, move || body(&writers, &readers)));
     };
     // simplest first: one writer x one write, one reader of each kind
     for r in [Typed, Untyped, Mapped, TypedThenMapped] {
@@ -249,7 +251,8 @@ pub fn configs(thorough: bool) -> Vec<Config> {
     add(vec![1], vec![Typed, Mapped]);
     add(vec![2], vec![Typed, Mapped]);
     add(vec![1, 1], vec![Typed, Mapped]);
-    if thorough {
+    let _ = thorough; // same configs in both tiers; the tiers differ in the preemption bound
+    {
         add(vec![1, 1], vec![TypedThenMapped]);
         add(vec![1], vec![Untyped, TypedThenMapped]);
         add(vec![2, 1], vec![Typed]);
